@@ -32,7 +32,7 @@ TEXTS = {
 
 
 def plan(tier, seed):
-    n = 6 if tier == 'quick' else 150
+    n = 6 if tier == 'quick' else 300
     fams = ['F0', 'F1', 'F2', 'F3', 'F4', 'F5', 'F6', 'F8', 'F9', 'F10']
     sp = [{'kind': 'generated'}]
     for y in (2021, 2022, 2023):
